@@ -19,7 +19,7 @@ from checks import orch_common as oc
 NSIM = {"quick": 6000, "thorough": 60000}
 PER_CLASS = {"quick": 1, "thorough": 3}
 MAX_MODEL = {"quick": 260, "thorough": 4000}
-NVARIANTS = {"quick": 420, "thorough": 10 ** 9}
+NVARIANTS = {"quick": 1000, "thorough": 10 ** 9}
 PROCS = {"quick": 12, "thorough": 16}
 ALL_INV = ("TypeOK Inv_C08_DeleteAfterAllInitialized Inv_C08_NoDeleteAfterFailure_Code Inv_C08_SingleCommandPerNode "
            "Inv_C08_RolledBackWhenQuiet Inv_C08_RolledBackByAction")
@@ -132,7 +132,19 @@ def systematic(run, rng):
         allv += [(vn, vst, mut) for vn, vst in vs]
     nall = len(allv)
     if len(allv) > NVARIANTS[run.tier]:
-        allv = rng.sample(allv, NVARIANTS[run.tier])
+        # stratified: one variant of every (base path, variant kind) first, the rest uniformly
+        buckets = collections.defaultdict(list)
+        for v in allv:
+            path, _, what = v[0].partition("|")
+            buckets[(path, what.split(":")[-2] if what.count(":") >= 2 and what.split(":")[-2] == "once" else what.split(":")[-1].split("@")[0].split("-")[0])].append(v)
+        keys = sorted(buckets)
+        rng.shuffle(keys)
+        picked = [rng.choice(buckets[k]) for k in keys][:NVARIANTS[run.tier]]
+        seen = {v[0] for v in picked}
+        rest = [v for v in allv if v[0] not in seen]
+        picked += rng.sample(rest, max(0, min(len(rest), NVARIANTS[run.tier] - len(picked))))
+        run.extra_cov["variant_buckets"] = len(keys)
+        allv = picked
     for vn, vst, mut in allv:
         scen.append(oc.scenario("var:" + vn, vst, {"kind": "variant"}, nodes_mut=mut))
     run.notes.append("systematic: %d base paths, %d call-position variants (fault once / always / crash before / after, restart "
